@@ -83,7 +83,9 @@ Definition sys_ctx (sys : list tdef) : ctx Z data state Z (list (Z * data)) :=
     (fun f => map fst f)
     (fun f c => od_getitem Z.eqb f c)
     (fun l => l)
-    (fun l => l).
+    (fun l => l)
+    (fun t => t)
+    (fun _ _ => 0).
 
 Inductive outcome :=
 | OOk (d : list Z) (path : list Z) (log : list Z)
